@@ -103,7 +103,7 @@ pub static PROPS: &[Prop] = &[
     Prop { id: "C11", run: c11::run, meta: c11::meta, single_process: false, budget_quick_s: 120, budget_thorough_s: 900, handles_foreign_panics: false },
     Prop { id: "C12", run: c12::run, meta: c12::meta, single_process: false, budget_quick_s: 120, budget_thorough_s: 900, handles_foreign_panics: false },
     Prop { id: "C13", run: c13::run, meta: c13::meta, single_process: false, budget_quick_s: 180, budget_thorough_s: 1500, handles_foreign_panics: true },
-    Prop { id: "C20", run: c20::run, meta: c20::meta, single_process: false, budget_quick_s: 120, budget_thorough_s: 900, handles_foreign_panics: false },
+    Prop { id: "C20", run: c20::run, meta: c20::meta, single_process: false, budget_quick_s: 120, budget_thorough_s: 900, handles_foreign_panics: true },
     Prop { id: "C15", run: c15::run, meta: c15::meta, single_process: false, budget_quick_s: 120, budget_thorough_s: 900, handles_foreign_panics: true },
     Prop { id: "C16", run: c16::run, meta: c16::meta, single_process: false, budget_quick_s: 120, budget_thorough_s: 900, handles_foreign_panics: false },
     Prop { id: "C17", run: c17::run, meta: c17::meta, single_process: false, budget_quick_s: 120, budget_thorough_s: 900, handles_foreign_panics: false },
